@@ -576,11 +576,11 @@ func genC24(tier string, seed uint64, idx int) *simkit.Plan {
 		switch rng.Pick(6, 3, 1, 1, 2, 2) {
 		case 0:
 			q := pick()
-			a := append(genEntryArgs(rng, hasChildIn(u, q), 2), "p", q, "keep", true)
+			a := append(genEntryArgs(rng, hasChildIn(u, q), 2), "p", q, "keep", true, "bothforms", rng.Chance(1, 4))
 			p.Add(simkit.St("mk", rng.Uint64(), a...))
 		case 1:
 			q := pick()
-			a := append(genEntryArgs(rng, hasChildIn(u, q), 2), "p", q, "keep", true)
+			a := append(genEntryArgs(rng, hasChildIn(u, q), 2), "p", q, "keep", true, "bothforms", rng.Chance(1, 3))
 			p.Add(simkit.St("up", rng.Uint64(), a...))
 		case 2:
 			p.Add(simkit.St("rm", rng.Uint64(), "p", pick(), "rec", true, "data", links || rng.Chance(1, 2)))
